@@ -21,6 +21,7 @@ VERIF = os.path.dirname(os.path.dirname(os.path.abspath(__file__)))
 REPO = os.environ.get("IOPT_REPO", "/repo")
 PY = "/venv/bin/python"
 JOBS = int(os.environ.get("VERIF_JOBS", "16"))
+OUT = os.environ.get("VERIF_OUT", VERIF)     # evidence/, replays/, .work/ go here (mutation runs redirect it)
 
 
 def worker_env():
@@ -82,7 +83,7 @@ def main(pid, tier, seed, replay=None, jobs=None):
 
     cases = mod.cases(tier, seed)
     ncases = len(cases)
-    work = os.path.join(VERIF, ".work", "%s-%s-%d" % (pid, tier, os.getpid()))
+    work = os.path.join(OUT, ".work", "%s-%s-%d" % (pid, tier, os.getpid()))
     shutil.rmtree(work, ignore_errors=True)
     os.makedirs(work)
     # deterministic shuffle so expensive cases spread over shards, then many small shards
@@ -182,7 +183,7 @@ def main(pid, tier, seed, replay=None, jobs=None):
 
     replay_paths = []
     if new_viol:
-        rdir = os.path.join(VERIF, "replays", pid)
+        rdir = os.path.join(OUT, "replays", pid)
         os.makedirs(rdir, exist_ok=True)
         seen = set()
         for i, v in new_viol:
@@ -233,12 +234,12 @@ def main(pid, tier, seed, replay=None, jobs=None):
         "coverage": coverage, "assumptions": getattr(mod, "ASSUMPTIONS", []), "wall_s": round(wall, 2),
         "violations": len(new_viol),
     }
-    os.makedirs(os.path.join(VERIF, "evidence"), exist_ok=True)
-    with open(os.path.join(VERIF, "evidence", pid + ".json"), "w") as fh:
+    os.makedirs(os.path.join(OUT, "evidence"), exist_ok=True)
+    with open(os.path.join(OUT, "evidence", pid + ".json"), "w") as fh:
         json.dump(ev, fh, indent=1, default=str)
     shutil.rmtree(work, ignore_errors=True)
     try:
-        os.rmdir(os.path.join(VERIF, ".work"))
+        os.rmdir(os.path.join(OUT, ".work"))
     except OSError:
         pass
 
@@ -277,7 +278,7 @@ def replay_case(pid, mod, path):
     rec = json.load(open(path))
     case = rec["case"]
     env = worker_env()
-    work = os.path.join(VERIF, ".work", "%s-replay-%d" % (pid, os.getpid()))
+    work = os.path.join(OUT, ".work", "%s-replay-%d" % (pid, os.getpid()))
     os.makedirs(work, exist_ok=True)
     sp = os.path.join(work, "shard.json")
     with open(sp, "w") as fh:
